@@ -750,6 +750,8 @@ static void thr_case(void) {
         mon_flag(F_MANY_PAGES);
     }
     mon_fp(perturb_signature());
+    mon_distinct("interleaving_signatures", perturb_signature());
+
     mon_count("thr_scenarios", 1);
     mon_count("thr_operations", total_ops);
     mon_count("thr_blocks_released_by_another_thread", sent);
